@@ -48,12 +48,16 @@ def main():
     try:
         py = "/venv/bin/python"
         env = dict(os.environ, PYTHONDONTWRITEBYTECODE="1")
-        rc0, out0 = run([py, os.path.abspath(a.demo)], cwd=wt, env=env)
+        # the demo is copied into the worktree root so that the worktree's copy of the package is the one imported
+        demo_wt = os.path.join(wt, "_seed_demo.py")
+        shutil.copy(os.path.abspath(a.demo), demo_wt)
+        rc0, out0 = run([py, demo_wt], cwd=wt, env=env)
         meta["demo_clean_exit"] = rc0
         meta["ran"].append(f"cd {wt} && {py} demo.py  (clean tree) -> exit {rc0}")
         rc, out = run(["git", "-C", wt, "apply", os.path.abspath(a.patch)])
         assert rc == 0, "patch does not apply: " + out
-        rc1, out1 = run([py, os.path.abspath(a.demo)], cwd=wt, env=env)
+        rc1, out1 = run([py, demo_wt], cwd=wt, env=env)
+        os.remove(demo_wt)
         meta["demo_patched_exit"] = rc1
         meta["demo_patched_tail"] = out1[-600:]
         meta["ran"].append(f"git apply patch.diff; {py} demo.py -> exit {rc1}")
